@@ -79,7 +79,7 @@ def apply_models(root: pathlib.Path, model_src: pathlib.Path):
         raise PatchError('src/lib.rs missing')
     t = lib.read_text()
     shutil.copy(model_src, root / 'src/verif_model.rs')
-    feats = "#![feature(arbitrary_self_types, coerce_unsized, unsize)]\n#![allow(internal_features, unused_imports, dead_code)]\n"
+    feats = "#![feature(arbitrary_self_types, coerce_unsized, unsize)]\n#![recursion_limit = \"512\"]\n#![allow(internal_features, unused_imports, dead_code)]\n"
     lib.write_text(feats + 'pub mod verif_model;\n' + t)
     # sanity: no std Arc/HashMap/HashSet import may survive in src/
     for f in root.glob('src/**/*.rs'):
